@@ -193,3 +193,9 @@ def ref_block_ok(block, fCheckPoW, fCheckMerkleRoot, cur_time, max_money, pow_ok
         if any(_has_witness_data(t) for t in vtx) and not ref_commitment_ok(vtx):
             return False
     return True
+
+
+@spec(opaque=True, sig=[TupleOf(Obj(CTransaction))], ret=Bool)
+def distinct_txids(txs):
+    """no two transactions of the block have the same txid"""
+    return forall(range(0, len(txs)), lambda b: forall(range(0, b), lambda a: txid_of(txs[a]) != txid_of(txs[b])))
